@@ -31,8 +31,13 @@ func (r *vScriptReader) Read(p []byte) (int, error) {
 	vAssume(i < r.maxReads) // bound: the stream ends, fails or completes within maxReads calls
 	r.lastLen[i] = len(p)
 	r.calls++
-	if r.canBlock && len(p) > 0 && vBoolAt("rblock", i, vMaxReads) { // a reader does not block on an empty buffer
+	// a stalling reader stalls whatever buffer it is given: io.Pipe (the in-process peers' stdout) blocks a
+	// zero-length Read too, until the next write or close
+	if r.canBlock && vBoolAt("rblock", i, vMaxReads) {
 		r.blocked = true
+		if vNative() {
+			select {}
+		}
 		vBlock()
 	}
 	n := vIntAt("rn", i, vMaxReads, 0, 4)
@@ -59,6 +64,12 @@ func h09a(K, R int) {
 	r := &timeoutDelimitedReader{in: rd}
 	data, err := r.read(k)
 
+	if k == 0 {
+		// nothing is wanted: complete at once, and the peer need not be asked at all (a zero-length Read may
+		// block - io.Pipe's does)
+		vAssert(err == nil && len(data) == 0, "read(0) is complete at once")
+		return
+	}
 	// reference: first i with s_i == k or e_i != nil
 	s := 0
 	decided := false
@@ -127,7 +138,7 @@ func h09b(B, R int, stall bool) {
 		if i >= rd.calls {
 			break
 		}
-		if stall && rd.lastLen[i] > 0 && vBoolAt("rblock", i, vMaxReads) {
+		if stall && vBoolAt("rblock", i, vMaxReads) {
 			result = 6
 			done = true
 			break
